@@ -1153,6 +1153,9 @@ func (p *ChangeTssECDSAPubKeyMethod) ReceiveBlock(context vm_context.AccountVmCo
 	pubKey, _ := base64.StdEncoding.DecodeString(param.PubKey)
 
 	X, Y := secp256k1.DecompressPubkey(pubKey)
+	if X == nil || Y == nil {
+		return nil, constants.ErrForbiddenParam
+	}
 	dPubKeyBytes := make([]byte, 1)
 	dPubKeyBytes[0] = 4
 	dPubKeyBytes = append(dPubKeyBytes, X.Bytes()...)
